@@ -218,18 +218,28 @@ func vrtNewSched(order []int) *vrtSched {
 	return s
 }
 
-func vrtGo(f func()) {
+func vrtGo(f func()) { vrtSpawn(f, true) }
+
+// vrtGoLib replaces the go statements of the instrumented library code: the new
+// goroutine gets its logical thread id, but vrtJoin does not wait for it.
+func vrtGoLib(f func()) { vrtSpawn(f, false) }
+
+func vrtSpawn(f func(), joinable bool) {
 	s := vrtS.sched
 	s.mu.Lock()
 	id := s.next
 	s.next++
 	s.mu.Unlock()
-	s.wg.Add(1)
+	if joinable {
+		s.wg.Add(1)
+	}
 	go func() {
 		s.mu.Lock()
 		s.ids[vrtGoid()] = id
 		s.mu.Unlock()
-		defer s.wg.Done()
+		if joinable {
+			defer s.wg.Done()
+		}
 		defer func() {
 			s.mu.Lock()
 			if s.running == id {
@@ -346,6 +356,9 @@ func vrtQuiesce() {
 	vrtQuiesceMu.Unlock()
 	vrtTouch()
 }
+
+// vrtSettle: natively the same as vrtQuiesce.
+func vrtSettle() { vrtQuiesce() }
 
 var vrtClockOffset int64 // harness clock = real clock + offset (native side)
 
